@@ -33,6 +33,8 @@ def alph_c01():
         join("right", [from_("u")], eqcol("k"), explicit=True),
         join("full", [from_("u")], eqcol("k"), explicit=True),
         group(["c"], [aggregate(item(agg("sum", col("p")), "sp"), item(agg("count", col("p")), "np"))]),
+        # stars in select lists
+        select(item(bin_("-", a, lit(1)), "x"), item(star("t"))), select(item(star("u")), item(col("b", "t"))),
     ]
 
 def alph_c03():
@@ -69,6 +71,9 @@ def alph_c05():
         join("left", [from_("u"), select(item("k"), item(col("c"), "cc"))], eqcol("k"), alias="u"),
         append(U3),
         exclude("a"), exclude(col("k", "t")), exclude(col("a", "t"), col("c", "u")), exclude(col("k", "u")),
+        # stars in select lists: a computed column before / after the columns of an input, one input of a join
+        select(item(bin_("+", a, lit(1)), "x"), item(star("t"))), select(item(star("t")), item(bin_("*", k, lit(2)), "z")),
+        select(item(col("c", "u")), item(star("t"))), select(item(star("u")), item(col("b", "t"))),
     ]
 
 def alph_c10():
